@@ -1053,11 +1053,23 @@ def multi_cases(draw, large=False):
             # which sources have a TAXA block: every mixture, or drawn per source (None)
             taxa_pattern = draw(st.sampled_from([[True, False, False], [True, False, True], [False, True, False],
                                                  [True, True, True], [False, False, False], [None, None, None]]))
+            # one time in three: the first source declares its taxa (TAXA block), the later ones declare none and
+            # name at least one taxon the first did not have (mostly through a TRANSLATE table)
+            declared_first = draw(st.integers(0, 2)) == 0
+            cut = draw(st.integers(1, 3))
         docs_ = []
         for _ in range(nd):
             if gen is None:
                 # NEXUS sources with and without TAXA blocks, mixed inside one call
                 sub = draw(st.lists(st.sampled_from(pool), min_size=1, max_size=4, unique=True))
+                if declared_first:
+                    first = not docs_
+                    sub = pool[:cut] if first else [pool[cut]] + [l for l in sub if l != pool[cut]][:2]
+                    d = draw(c13_docs.rich_nexus_docs(max_trees=2, max_blocks=2, max_chars=4, labels=sub, taxa=first,
+                                                      translate=None if first else (draw(st.integers(0, 2)) > 0 or None)))
+                    fit_options(d, opts)
+                    docs_.append({"text": d["text"], "schema": d["schema"]})
+                    continue
                 d = draw(st.one_of(c13_docs.ultrametric_newick_docs(max_trees=3, nexus=True),
                                    c13_docs.rich_nexus_docs(max_trees=2, max_blocks=2, max_chars=4, labels=sub,
                                                             taxa=taxa_pattern[len(docs_)]),
